@@ -60,7 +60,8 @@ out.append("observably equivalent rewrites of orswot.rs/vclock.rs, map.rs, mvreg
 out.append("were swept the same way: 15 x 20 quick checks, **no VIOLATION and no machinery error** (`seeded/logs/sweep_quick_benign_*.log`);")
 out.append("three of them (R1-1 `Orswot::merge`/`reset_remove` with `retain`, R2-2 `Map::merge` with the entry API, R3-2 `MVReg::merge` as one loop)")
 out.append("were also run through all 20 *thorough* checks, where the golden failing-sets hold a million histories: no alarm either")
-out.append("(`seeded/logs/sweep_thorough_benign_3_*.log`).")
+out.append("(`seeded/logs/sweep_thorough_benign_3_*.log`).  Second session: the four quick checks that gained configurations (C02, C11, C14, C17) were run")
+out.append("against all 15 refactorings again: no alarm (`seeded/logs/sweep_quick_benign_session2_C02_C11_C14_C17.log`).")
 block = "<!-- SEEDTABLE-BEGIN -->\n" + "\n".join(out) + "\n<!-- SEEDTABLE-END -->"
 p = '/verif/DESIGN.md'; s = open(p).read()
 if 'SEEDTABLE-BEGIN' in s:
